@@ -115,21 +115,25 @@ NA = {}
 
 # appended to the technique text of a property (additions of later sessions)
 TECH_ADD = {
+ "C09": "; numeric edge values for priority-/version-/length-like headers; the file entry point with unreadable paths",
+ "C17": "; a second DialWithContext on a Client whose established connection has gone silent",
+ "C19": "; overlapping DialWithContext calls on one Client (open connections <= successful calls)",
+ "C04": "; WithoutNoop configurations",
  "C01": "; one case in four edits the message after building (UnsetAll*/SetAttachments/SetEmbeds with permuted or shortened lists, Part.Delete/SetContentType/SetCharset/SetContent/SetWriteFunc, SetBoundary) with the model following, one in four renders the same Msg a second time; RFC 2231 extended file-name parameters are decoded and judged like the plain ones; message charsets through WithCharset; files from an embed.FS",
  "C02": "; the deprecated SetHeader/SetHeaderPreformatted aliases; RFC 2231 extended parameters judged like the plain ones",
  "C03": "; file-system sources whose Read fails after a successful Open (a directory in place of the file, a caller's fs.FS reporting an error mid-way)",
  "C05": "; invisible and space runes (U+00A0, U+3000, U+200B, U+FEFF) in quoted local parts; the exported smtp.Client API driven directly with raw strings (Hello, Verify, SetDSN*Option, Mail, Rcpt) against a command-sequence oracle",
  "C06": "; blind copies for the mailbox of a visible recipient (also in another capitalisation)",
  "C07": "; authentication replaced through SetSMTPAuth/SetSMTPAuthCustom after a password-revealing one; a second DialWithContext without closing the first connection, which is judged under the tightened policy from that moment on; AUTH lists carrying the library's own type names; the package-level QuickSend",
- "C08": "; the signer configured again between two renders (other key type, intermediate added/dropped, same pair)",
+ "C08": "; the signer configured again between two renders (other key type, intermediate added/dropped, same pair); message-level Content-* fields",
  "C10": "; library-generated extra fields (importance, bulk, organisation, MDN, custom X- headers) must survive the round trip without being multiplied",
  "C11": "; the caller comes back to the buffers/readers it attached between two renders",
- "C12": "; destinations that also implement Flush/WriteString/ReadFrom; file-system sources failing in Read",
+ "C12": "; destinations that also implement Flush/WriteString/ReadFrom and report io.ErrShortWrite/io.ErrClosedPipe/io.EOF; file-system sources failing in Read",
  "C14": "; second connections that resume the TLS session of the first (ClientSessionCache), incl. the PLUS variants",
- "C15": "; server-final with the RFC 5802 server-error attribute instead of a signature; two exchanges of one mail.Client at a time, the peer of one replaying the other's server signature",
+ "C15": "; server-final with the RFC 5802 server-error attribute instead of a signature; two exchanges of one mail.Client at a time, the peer of one replaying the other's server signature; a caller password the profile refuses with a reused Auth value against a server holding the empty password",
  "C16": "; logging configured through the Client setters, auth-data logging switched off again; SCRAM passwords the profile refuses (needles: alphanumeric stretches, robust against %q/JSON escaping)",
  "C18": "; long blank-free words with commas/semicolons/parentheses",
- "C20": "; errors.Is against a named step and SendError.MessageID",
+ "C20": "; errors.Is against a named step and SendError.MessageID; nil entries in the batch",
 }
 
 checks = []
